@@ -45,6 +45,25 @@ def get_use_tree(
     if scope.FQSN in curr_path:
         return use_dict
     new_path = curr_path + [scope.FQSN]
+    # A module whose default accessibility is PRIVATE passes on only those
+    # USE associated names that it explicitly declares PUBLIC
+    if curr_path and (scope.def_vis < 0):
+        fqsn_head = scope.FQSN.lower() + "::"
+        public_names = {
+            name.lower()[len(fqsn_head) :]
+            for name in scope.file_ast.public_list
+            if name.lower().startswith(fqsn_head)
+        }
+        if only_list:
+            only_list = {
+                name
+                for name in only_list
+                if rename_map.get(name, name) in public_names
+            }
+        else:
+            only_list = public_names
+        if not only_list:
+            return use_dict
     # Add recursively
     for use_stmnt in scope.use:
         # if use_stmnt.mod_name not in obj_tree:
